@@ -391,7 +391,7 @@ impl Prop for C05 {
         let chunks = (grammar_size(depth) + CHUNK - 1) / CHUNK;
         chunks
             + match tier {
-                Tier::Quick => 300,
+                Tier::Quick => 1500,
                 Tier::Thorough => 6000,
             }
     }
